@@ -119,7 +119,15 @@ func (e *Exec) freshResults(res *types.Tuple, name string) Value {
 
 func (e *Exec) callFunc(st *State, f *ssa.Function, bindings, args []Value, pos token.Pos) Value {
 	key := funcKey(f)
-	if spec := e.DB.Funcs[key]; spec != nil && !spec.Inline && f != e.curFn() {
+	forceInline := false
+	if e.Spec != nil {
+		for _, n := range e.Spec.Inlines {
+			if n == f.Name() {
+				forceInline = true
+			}
+		}
+	}
+	if spec := e.DB.Funcs[key]; spec != nil && !spec.Inline && !forceInline && f != e.curFn() {
 		if spec.Extern {
 			e.Externs[key] = true
 		} else {
